@@ -37,6 +37,8 @@ run = demo['run']
 # normalise run command: find "go test ..." and module dir
 mod = 'server' if copy_to.startswith('server') else 'core'
 gocmd = run[run.index('go test'):] if 'go test' in run else 'go test -count=1 -run TestSeedDemo ./...'
+import re
+gocmd = re.split(r'\s+\(|\s+#|;|&&|\|', gocmd)[0].strip()
 if '-vet=off' not in gocmd: gocmd = gocmd.replace('go test', 'go test -vet=off', 1)
 def run_demo():
     for f in demos: shutil.copy(f, f'{MUT}/{copy_to}/' + os.path.basename(f))
